@@ -550,8 +550,13 @@ _TMP = []
 
 
 def tmp_path(suffix):
+    # one private directory per run, created in the parent (generate() asks for it before the
+    # workers are forked) and removed when the parent exits; workers only add per-pid files
     if not _TMP:
+        import atexit
+        import shutil
         _TMP.append(tempfile.mkdtemp(prefix="c16_"))
+        atexit.register(shutil.rmtree, _TMP[0], True)
     return os.path.join(_TMP[0], "case_%d%s" % (os.getpid(), suffix))
 
 
@@ -918,6 +923,7 @@ class C16(fw.Check):
 
     # -- generation ----------------------------------------------------------
     def generate(self, tier, rng):
+        tmp_path("")            # create the run directory before the workers fork
         q = tier == "quick"
         cases = []
         n_tree = 1500 if q else 15000
